@@ -21,6 +21,7 @@ import (
 	"encoding/hex"
 	"fmt"
 	"io"
+	"log/slog"
 	"math/rand"
 	"os"
 	"os/exec"
@@ -194,6 +195,7 @@ func c02ParseChron(f []string, live *int) c02Chron {
 func c02WorkerMain(script string) {
 	// SIGXFSZ must not kill the worker when RLIMIT_FSIZE is used for short writes
 	c02IgnoreXFSZ()
+	c02Quiet()
 	in, err := os.Open(script)
 	if err != nil {
 		fmt.Fprintln(os.Stderr, "worker:", err)
@@ -333,6 +335,7 @@ type c02Sys struct {
 	Data []byte // bytes actually transferred (short writes: the prefix)
 	Want int    // bytes requested (write)
 	Res  string // ok | err | short
+	Kind string // classification of a write: fh:<nl> | nm | bh:<id> | bp:<id> | raw
 }
 
 var (
@@ -630,22 +633,23 @@ func c02RunTraced(script []string, extraStrace []string) (results []string, sys 
 // ---------------------------------------------------------------- block table
 
 type c02Block struct {
-	ID   int
-	Hdr  []byte
-	Pay  []byte
-	Ents string // p.k.v;d.k;…
+	ID    int
+	Hdr   []byte
+	Pay   []byte
+	Ents  string // p.k.v;d.k;…
+	Sizes string // Entry.Size() of each entry, ';'-separated
 }
 
-func c02EntsOf(hdr, pay []byte) (string, bool) {
+func c02EntsOf(hdr, pay []byte) (string, string, bool) {
 	var bh v2.BlockHeader
 	if err := bh.Deserialize(hdr); err != nil {
-		return "", false
+		return "", "", false
 	}
 	blk, err := v2.ParseBlock(&bh, pay)
 	if err != nil {
-		return "", false
+		return "", "", false
 	}
-	var parts []string
+	var parts, sizes []string
 	for _, e := range blk.Entries {
 		k := strings.TrimPrefix(e.Key, "k")
 		switch e.Operation {
@@ -656,62 +660,119 @@ func c02EntsOf(hdr, pay []byte) (string, bool) {
 		default:
 			parts = append(parts, "m."+k)
 		}
+		sizes = append(sizes, strconv.Itoa(e.Size()))
 	}
-	return strings.Join(parts, ";"), true
+	return strings.Join(parts, ";"), strings.Join(sizes, ";"), true
 }
 
-// c02Classify labels the writes of a log: fh (64-byte file header at offset 0), nm (name bytes
-// right after a header at offset 64), bh:<id>/bp:<id> (block header + payload pairs), raw.
-// It also fills the block table.  A block header is recognised by shape only: a 16-byte write
-// whose size field equals the requested length of the next write to the same file.
-func c02Classify(sys []c02Sys) (kinds []string, blocks []c02Block) {
-	kinds = make([]string, len(sys))
-	byContent := map[string]int{}
+type c02Classifier struct {
+	byContent map[string]int
+	blocks    []c02Block
+}
+
+func c02NewClassifier() *c02Classifier { return &c02Classifier{byContent: map[string]int{}} }
+
+func (c *c02Classifier) register(hdr, pay []byte) (int, bool) {
+	ents, sizes, ok := c02EntsOf(hdr, pay)
+	if !ok {
+		return -1, false
+	}
+	key := string(hdr) + string(pay)
+	id, seen := c.byContent[key]
+	if !seen {
+		id = len(c.blocks)
+		c.byContent[key] = id
+		c.blocks = append(c.blocks, c02Block{ID: id, Hdr: append([]byte(nil), hdr...), Pay: append([]byte(nil), pay...), Ents: ents, Sizes: sizes})
+	}
+	return id, true
+}
+
+// classify labels the writes of a log: fh:<nl> (64-byte file header at offset 0), nm (name
+// bytes right after a header at offset 64), bh:<id>/bp:<id> (block header + payload pairs), raw.
+// A block header is recognised by shape only: a 16-byte write whose size field equals the
+// requested length of the next write to the same file, and whose payload parses.
+// Entries of sys with a preset Kind are left alone.
+func (c *c02Classifier) classify(sys []c02Sys) {
 	for i := 0; i < len(sys); i++ {
-		s := sys[i]
-		if s.Op != "write" {
-			continue
-		}
-		if kinds[i] != "" {
+		s := &sys[i]
+		if s.Op != "write" || s.Kind != "" {
 			continue
 		}
 		full := s.Data
 		switch {
 		case s.Want == 64 && s.Off == 0 && ((len(full) >= 4 && string(full[:4]) == "HYDR") || s.Res == "err"):
-			kinds[i] = "fh"
+			s.Kind = "fh"
 			if len(full) >= 46 {
-				kinds[i] = "fh:" + strconv.Itoa(int(binary.LittleEndian.Uint16(full[44:46])))
+				s.Kind = "fh:" + strconv.Itoa(int(binary.LittleEndian.Uint16(full[44:46])))
 			}
-		case s.Off == 64 && i > 0 && strings.HasPrefix(kinds[i-1], "fh") && sys[i-1].Path == s.Path && s.Want != 16:
-			kinds[i] = "nm"
+		case s.Off == 64 && i > 0 && strings.HasPrefix(sys[i-1].Kind, "fh") && sys[i-1].Path == s.Path && s.Want != 16:
+			s.Kind = "nm"
 		case s.Want == 16 && s.Res == "ok":
-			// find the next write to the same path: the payload
 			j := i + 1
 			for j < len(sys) && !(sys[j].Op == "write" && sys[j].Path == s.Path) {
 				j++
 			}
 			size := int(binary.LittleEndian.Uint32(full[0:4]))
-			if j < len(sys) && sys[j].Want == size && sys[j].Res == "ok" {
-				ents, ok := c02EntsOf(full, sys[j].Data)
-				if ok {
-					key := string(full) + string(sys[j].Data)
-					id, seen := byContent[key]
-					if !seen {
-						id = len(blocks)
-						byContent[key] = id
-						blocks = append(blocks, c02Block{ID: id, Hdr: full, Pay: sys[j].Data, Ents: ents})
+			if j < len(sys) && sys[j].Want == size && sys[j].Kind == "" {
+				// the payload may itself be cut short by a fault: parse what was requested if we have it
+				if sys[j].Res == "ok" {
+					if id, ok := c.register(full, sys[j].Data); ok {
+						s.Kind = "bh:" + strconv.Itoa(id)
+						sys[j].Kind = "bp:" + strconv.Itoa(id)
+						continue
 					}
-					kinds[i] = "bh:" + strconv.Itoa(id)
-					kinds[j] = "bp:" + strconv.Itoa(id)
-					continue
 				}
 			}
-			kinds[i] = "raw"
+			s.Kind = "raw"
 		default:
-			kinds[i] = "raw"
+			s.Kind = "raw"
 		}
 	}
-	return
+}
+
+// pseudo-operations that put `content` (a whole or cut .hyd file, or junk) at path: one create
+// plus one write per chunk, so that the model sees the same chunk structure as for real writes
+func (c *c02Classifier) plantOps(path string, content []byte, cut int) []c02Sys {
+	out := []c02Sys{{Cmd: -1, Op: "create", Path: path, Res: "ok", Kind: "plant"}}
+	add := func(off int, data []byte, kind string) {
+		if off >= cut {
+			return
+		}
+		if off+len(data) > cut {
+			data = data[:cut-off]
+		}
+		out = append(out, c02Sys{Cmd: -1, Op: "write", Path: path, Off: int64(off), Data: data, Want: len(data), Res: "ok", Kind: kind})
+	}
+	if len(content) < 64 || string(content[:4]) != "HYDR" {
+		add(0, content, "raw")
+		return out
+	}
+	nl := int(binary.LittleEndian.Uint16(content[44:46]))
+	add(0, content[:64], "fh:"+strconv.Itoa(nl))
+	off := 64
+	if nl > 0 && off+nl <= len(content) {
+		add(off, content[off:off+nl], "nm")
+		off += nl
+	}
+	for off+16 <= len(content) {
+		hdr := content[off : off+16]
+		size := int(binary.LittleEndian.Uint32(hdr[0:4]))
+		if off+16+size > len(content) {
+			break
+		}
+		pay := content[off+16 : off+16+size]
+		id, ok := c.register(hdr, pay)
+		if !ok {
+			break
+		}
+		add(off, hdr, "bh:"+strconv.Itoa(id))
+		add(off+16, pay, "bp:"+strconv.Itoa(id))
+		off += 16 + size
+	}
+	if off < len(content) {
+		add(off, content[off:], "raw")
+	}
+	return out
 }
 
 // ---------------------------------------------------------------- images
@@ -857,12 +918,598 @@ func init() {
 		if err != nil {
 			fmt.Fprintln(w, "ERR", err)
 		}
-		kinds, blocks := c02Classify(sys)
-		for _, b := range blocks {
-			fmt.Fprintf(w, "blk %d %s %d %s\n", b.ID, hex.EncodeToString(b.Hdr), len(b.Pay), b.Ents)
+		cl := c02NewClassifier()
+		cl.classify(sys)
+		for _, b := range cl.blocks {
+			fmt.Fprintf(w, "blk %d %s %d %s %s\n", b.ID, hex.EncodeToString(b.Hdr), len(b.Pay), b.Ents, b.Sizes)
 		}
-		for i, s := range sys {
-			fmt.Fprintf(w, "sys cmd=%d %s %s->%s off=%d want=%d got=%d %s %s\n", s.Cmd, s.Op, s.Path, s.To, s.Off, s.Want, len(s.Data), s.Res, kinds[i])
+		for _, s := range sys {
+			fmt.Fprintf(w, "sys cmd=%d %s %s->%s off=%d want=%d got=%d %s %s\n", s.Cmd, s.Op, s.Path, s.To, s.Off, s.Want, len(s.Data), s.Res, s.Kind)
 		}
 	}})
+}
+
+// ---------------------------------------------------------------- T phase: cases → ops file
+
+type c02CaseIn struct {
+	ID, Title string
+	Cmds      []string
+}
+
+func c02ReadCases(in *bufio.Scanner) []c02CaseIn {
+	var out []c02CaseIn
+	for in.Scan() {
+		l := strings.TrimSpace(in.Text())
+		if l == "" {
+			continue
+		}
+		if strings.HasPrefix(l, "case ") {
+			f := strings.SplitN(l, " ", 3)
+			c := c02CaseIn{ID: f[1]}
+			if len(f) > 2 {
+				c.Title = f[2]
+			}
+			out = append(out, c)
+			continue
+		}
+		if len(out) > 0 {
+			out[len(out)-1].Cmds = append(out[len(out)-1].Cmds, l)
+		}
+	}
+	return out
+}
+
+// the record appended after every recovery: key 9000, value 77
+const c02ProbeKey, c02ProbeVal = 9000, 77
+
+func c02ProbeItem() string { return fmt.Sprintf("p:%d:%d:%d", c02ProbeKey, c02ProbeVal, c02Pad(c02ProbeVal)) }
+
+// padding is a function of the value so that equal (key, value) pairs have equal bytes
+func c02Pad(v int) int { return (v * 37) % 90 }
+
+// bytes of a stand-alone .hyd file holding the given items, produced by the real writer
+func c02MakeFile(name string, bs int, items []string) []byte {
+	dir, err := os.MkdirTemp("", "hxplant-")
+	if err != nil {
+		return nil
+	}
+	defer os.RemoveAll(dir)
+	p := filepath.Join(dir, "x.hyd")
+	var fw *v2.FileWriter
+	if name == "" {
+		fw, err = v2.NewFileWriter(p, bs)
+	} else {
+		fw, err = v2.NewFileWriterWithName(p, bs, name)
+	}
+	if err != nil {
+		return nil
+	}
+	for _, it := range items {
+		tr, _ := c02MakeTreasure(it)
+		g := tr.StartTreasureGuard(false, guard.BodyAuthID)
+		e := v2.Entry{Operation: v2.OpInsert, Key: tr.GetKey()}
+		if strings.HasPrefix(it, "d:") {
+			e.Operation = v2.OpDelete
+		} else {
+			e.Data, _ = tr.ConvertToByte(g)
+		}
+		tr.ReleaseTreasureGuard(g)
+		_ = fw.WriteEntry(e)
+	}
+	_ = fw.Close()
+	b, _ := os.ReadFile(p)
+	return b
+}
+
+type c02CmdOut struct {
+	Text  string
+	Res   string
+	Sys   []c02Sys // traced operations of this command
+	Plant []c02Sys // pseudo-operations (plants), applied before Sys
+}
+
+type c02CaseOut struct {
+	In   c02CaseIn
+	Spec c02Chron
+	Cmds []c02CmdOut
+	Cl   *c02Classifier
+	Err  string
+}
+
+// c02TraceCases runs every case in one traced worker process.
+func c02TraceCases(cases []c02CaseIn, extraStrace []string) ([]c02CaseOut, error) {
+	root, err := os.MkdirTemp("", "hxcases-")
+	if err != nil {
+		return nil, err
+	}
+	defer os.RemoveAll(root)
+	var script []string
+	type ref struct{ ci, ki int }
+	var refs []ref
+	outs := make([]c02CaseOut, len(cases))
+	for ci, c := range cases {
+		outs[ci] = c02CaseOut{In: c, Cl: c02NewClassifier()}
+		script = append(script, "dir "+filepath.Join(root, "c"+strconv.Itoa(ci)))
+		refs = append(refs, ref{ci, -1})
+		for ki, cmd := range c.Cmds {
+			f := strings.Fields(cmd)
+			co := c02CmdOut{Text: cmd}
+			wcmd := cmd
+			switch f[0] {
+			case "chron":
+				outs[ci].Spec = c02ParseChron(f[1:], nil)
+			case "plant":
+				// plant <main|temp> junk N | file NAME BS CUT items… (CUT<0: whole file)
+				var content []byte
+				cut := -1
+				if f[2] == "junk" {
+					n, _ := strconv.Atoi(f[3])
+					content = make([]byte, n)
+					for i := range content {
+						content[i] = byte(0xA5 ^ i*7)
+					}
+				} else {
+					name := f[3]
+					if name == "-" {
+						name = ""
+					}
+					bs, _ := strconv.Atoi(f[4])
+					cut, _ = strconv.Atoi(f[5])
+					var items []string
+					if len(f) > 6 && f[6] != "-" {
+						items = strings.Split(f[6], ",")
+					}
+					content = c02MakeFile(name, bs, items)
+				}
+				if cut < 0 || cut > len(content) {
+					cut = len(content)
+				}
+				co.Plant = outs[ci].Cl.plantOps(f[1], content, cut)
+				wcmd = "plant " + f[1] + " " + c02Hex(content[:cut])
+				if cut == 0 {
+					wcmd = "plant " + f[1] + " 00"
+					co.Plant = append(co.Plant[:1], c02Sys{Cmd: -1, Op: "write", Path: f[1], Data: []byte{0}, Want: 1, Res: "ok", Kind: "raw"})
+				}
+			}
+			outs[ci].Cmds = append(outs[ci].Cmds, co)
+			script = append(script, wcmd)
+			refs = append(refs, ref{ci, ki})
+		}
+	}
+	results, sys, err := c02RunTraced(script, extraStrace)
+	if err != nil && len(results) == 0 {
+		return outs, err
+	}
+	for _, r := range results {
+		f := strings.SplitN(r, " ", 3)
+		n, _ := strconv.Atoi(f[1])
+		if n < len(refs) && refs[n].ki >= 0 && len(f) > 2 {
+			outs[refs[n].ci].Cmds[refs[n].ki].Res = f[2]
+		}
+	}
+	for _, s := range sys {
+		if s.Cmd < 0 || s.Cmd >= len(refs) || refs[s.Cmd].ki < 0 {
+			continue
+		}
+		co := &outs[refs[s.Cmd].ci].Cmds[refs[s.Cmd].ki]
+		if strings.HasPrefix(co.Text, "plant ") {
+			continue // the worker's own WriteFile; represented by the pseudo-operations
+		}
+		co.Sys = append(co.Sys, s)
+	}
+	for ci := range outs {
+		// classify over the whole case so block ids are shared
+		var all []c02Sys
+		for _, c := range outs[ci].Cmds {
+			all = append(all, c.Sys...)
+		}
+		outs[ci].Cl.classify(all)
+		k := 0
+		for j := range outs[ci].Cmds {
+			for m := range outs[ci].Cmds[j].Sys {
+				outs[ci].Cmds[j].Sys[m] = all[k]
+				k++
+			}
+		}
+	}
+	return outs, err
+}
+
+func c02LogLine(verb string, idx int, s c02Sys) string {
+	to := s.To
+	if to == "" {
+		to = "-"
+	}
+	kind := s.Kind
+	if kind == "" || s.Op != "write" {
+		kind = "-"
+	}
+	n := s.Want
+	if s.Op == "trunc" {
+		n = int(s.Off)
+	}
+	return fmt.Sprintf("%s %d %s %s %s %d %d %s %s %s", verb, idx, s.Op, s.Path, to, s.Off, n, kind, s.Res, c02Hex(s.Data))
+}
+
+func c02ParseLogLine(f []string) c02Sys {
+	// verb idx op path to off len kind res hex
+	s := c02Sys{Op: f[2], Path: f[3], To: f[4], Kind: f[7], Res: f[8]}
+	if s.To == "-" {
+		s.To = ""
+	}
+	s.Off, _ = strconv.ParseInt(f[5], 10, 64)
+	s.Want, _ = strconv.Atoi(f[6])
+	if len(f) > 9 {
+		s.Data = c02Unhex(f[9])
+	}
+	return s
+}
+
+// entries (key.size) of the blocks written to the temp file in a region, in order
+func c02TempOrder(cl *c02Classifier, sys []c02Sys) string {
+	var parts []string
+	for _, s := range sys {
+		if s.Op == "write" && s.Path == "temp" && strings.HasPrefix(s.Kind, "bh:") {
+			id, _ := strconv.Atoi(s.Kind[3:])
+			b := cl.blocks[id]
+			es, ss := strings.Split(b.Ents, ";"), strings.Split(b.Sizes, ";")
+			for i, e := range es {
+				ef := strings.Split(e, ".")
+				if len(ef) >= 2 {
+					parts = append(parts, ef[1]+"."+ss[i])
+				}
+			}
+		}
+	}
+	if len(parts) == 0 {
+		return "-"
+	}
+	return strings.Join(parts, ",")
+}
+
+func c02HasTempCreateOrWrite(sys []c02Sys) bool {
+	for _, s := range sys {
+		if s.Path == "temp" && (s.Op == "create" || s.Op == "write" || s.Op == "rename") {
+			return true
+		}
+	}
+	return false
+}
+
+func c02LastSync(ops []c02Sys, i int) int {
+	for m := i - 1; m >= 0; m-- {
+		if ops[m].Op == "sync" && ops[m].Res == "ok" {
+			return m + 1
+		}
+	}
+	return 0
+}
+
+// torn offsets of a write of n bytes
+func c02TornOffsets(n int, thorough bool) []int {
+	set := map[int]bool{}
+	if thorough {
+		for k := 1; k < n; k++ {
+			set[k] = true
+		}
+	} else {
+		for _, k := range []int{1, 15, 16, 17, n / 2, n - 1} {
+			if k > 0 && k < n {
+				set[k] = true
+			}
+		}
+	}
+	var out []int
+	for k := range set {
+		out = append(out, k)
+	}
+	sort.Ints(out)
+	return out
+}
+
+// crash points for operations [from, to] of a log: every boundary, torn writes, and lossy
+// variants (data of the writes since j lost, metadata kept)
+func c02ImagePoints(ops []c02Sys, from, to int, thorough bool, maxTorn int) [][3]int {
+	var out [][3]int
+	for i := from; i <= to && i <= len(ops); i++ {
+		out = append(out, [3]int{i, i, 0})
+		if i < len(ops) && ops[i].Op == "write" && len(ops[i].Data) <= maxTorn {
+			for _, k := range c02TornOffsets(len(ops[i].Data), thorough) {
+				out = append(out, [3]int{i, i, k})
+			}
+		}
+		ls := c02LastSync(ops, i)
+		// lossy: only useful when a metadata operation lies in (j, i)
+		for j := ls; j < i; j++ {
+			meta := false
+			for m := j + 1; m < i; m++ {
+				if ops[m].Op != "write" && ops[m].Op != "sync" {
+					meta = true
+				}
+			}
+			if !meta {
+				continue
+			}
+			out = append(out, [3]int{i, j, 0})
+			if ops[j].Op == "write" && len(ops[j].Data) > 1 {
+				out = append(out, [3]int{i, j, len(ops[j].Data) / 2})
+			}
+		}
+	}
+	return out
+}
+
+// c02EmitCase writes the ops lines of one traced case. imgRegion(cmd index) says whether crash
+// images are wanted for the operations of that command.
+func c02EmitCase(w *bufio.Writer, co c02CaseOut, imgFor func(ki int, c c02CmdOut) (want, fromTemp bool), thorough bool, withProbe bool) {
+	fmt.Fprintf(w, "case %s %s\n", co.In.ID, co.In.Title)
+	nl := len(co.Spec.name)
+	fmt.Fprintf(w, "cfg kind=%s bs=%d thr=%g name=%s nl=%d\n", co.Spec.kind, co.Spec.bs, co.Spec.thr, c02Dash(co.Spec.name), nl)
+	if withProbe {
+		// the block a post-recovery append of the probe record produces (real encoder)
+		tr, _ := c02MakeTreasure(c02ProbeItem())
+		g := tr.StartTreasureGuard(false, guard.BodyAuthID)
+		data, _ := tr.ConvertToByte(g)
+		tr.ReleaseTreasureGuard(g)
+		if bh, pay, err := v2.CompressEntries([]v2.Entry{{Operation: v2.OpInsert, Key: c02KeyName(c02ProbeKey), Data: data}}); err == nil && bh != nil {
+			co.Cl.register(bh.Serialize(), pay)
+		}
+	}
+	for _, b := range co.Cl.blocks {
+		fmt.Fprintf(w, "blk %d %s %d %s %s\n", b.ID, hex.EncodeToString(b.Hdr), len(b.Pay), b.Ents, b.Sizes)
+	}
+	var ops []c02Sys
+	for ki, c := range co.Cmds {
+		f := strings.Fields(c.Text)
+		start := len(ops)
+		for _, p := range c.Plant {
+			fmt.Fprintln(w, c02LogLine("plant", len(ops), p))
+			ops = append(ops, p)
+		}
+		compacted := c02HasTempCreateOrWrite(c.Sys)
+		order := c02TempOrder(co.Cl, c.Sys)
+		switch f[0] {
+		case "chron":
+			fmt.Fprintln(w, "act new")
+		case "w":
+			var items []string
+			sizes := []string{}
+			if i := strings.Index(c.Res, "sz="); i >= 0 {
+				sizes = strings.Split(c.Res[i+3:], ",")
+			}
+			for i, it := range strings.Split(f[1], ",") {
+				p := strings.Split(it, ":")
+				sz := "0"
+				if i < len(sizes) {
+					sz = sizes[i]
+				}
+				if p[0] == "p" {
+					items = append(items, "p."+p[1]+"."+p[2]+"."+sz)
+				} else {
+					items = append(items, "d."+p[1]+"."+sz)
+				}
+			}
+			fmt.Fprintln(w, "act w "+strings.Join(items, ","))
+			if compacted {
+				fmt.Fprintln(w, "act compact locked "+order)
+			}
+		case "sync":
+			fmt.Fprintln(w, "act sync "+c02ResWord(c.Res))
+		case "close":
+			fmt.Fprintln(w, "act close "+c02ResWord(c.Res))
+			if compacted {
+				fmt.Fprintln(w, "act compact locked "+order)
+			}
+		case "force":
+			if compacted {
+				fmt.Fprintln(w, "act compact locked "+order)
+			} else {
+				fmt.Fprintln(w, "act compact locked skip")
+			}
+		case "cli":
+			if compacted {
+				fmt.Fprintln(w, "act compact cli "+order)
+			} else {
+				fmt.Fprintln(w, "act compact cli skip")
+			}
+		case "load":
+			st := strings.TrimPrefix(c.Res, "ok ")
+			if compacted {
+				fmt.Fprintln(w, "act load "+order+" "+st)
+			} else {
+				fmt.Fprintln(w, "act load - "+st)
+			}
+		case "plant", "live", "fsize":
+		default:
+			fmt.Fprintln(w, "act "+c.Text)
+		}
+		for _, s := range c.Sys {
+			fmt.Fprintln(w, c02LogLine("log", len(ops), s))
+			ops = append(ops, s)
+		}
+		want, fromTemp := false, false
+		if imgFor != nil {
+			want, fromTemp = imgFor(ki, c)
+		}
+		if want && fromTemp {
+			first := -1
+			for m := start; m < len(ops); m++ {
+				if ops[m].Path == "temp" && ops[m].Kind != "plant" && !(m < start+len(c.Plant)) {
+					first = m
+					break
+				}
+			}
+			if first < 0 {
+				want = false
+			}
+			start = first
+		}
+		if want && len(ops) > start {
+			for _, p := range c02ImagePoints(ops, start, len(ops), thorough, 1<<20) {
+				fmt.Fprintf(w, "img %d %d %d\n", p[0], p[1], p[2])
+			}
+		}
+	}
+	fmt.Fprintln(w, "end")
+}
+
+func c02Dash(s string) string {
+	if s == "" {
+		return "-"
+	}
+	return s
+}
+
+func c02ResWord(r string) string {
+	f := strings.Fields(r)
+	if len(f) == 0 {
+		return "?"
+	}
+	if f[0] == "err" && len(f) > 1 {
+		return "err"
+	}
+	return f[0]
+}
+
+// ---------------------------------------------------------------- run phase: implementation replies
+
+// image of the log at crash point (i, j, k): operations [0,j) applied, operation j cut after k
+// bytes (a non-write: done iff k > 0), then — when j < i — the metadata operations of (j, i)
+func c02Image(ops []c02Sys, i, j, k int) c02Files {
+	d := c02Files{}
+	if i <= j {
+		j = i
+	}
+	for m := 0; m < j && m < len(ops); m++ {
+		d.apply(ops[m], -1)
+	}
+	if j < len(ops) {
+		if ops[j].Op == "write" {
+			d.apply(ops[j], k)
+		} else if k > 0 {
+			d.apply(ops[j], -1)
+		}
+	}
+	for m := j + 1; m < i && m < len(ops); m++ {
+		if ops[m].Op != "write" {
+			d.apply(ops[m], -1)
+		}
+	}
+	return d
+}
+
+type c02Replay struct {
+	spec   c02Chron
+	ops    []c02Sys
+	blocks map[string]string // id -> ents
+	dir    string
+	probe  bool
+}
+
+func (r *c02Replay) kindText(k string) string {
+	if strings.HasPrefix(k, "bh:") || strings.HasPrefix(k, "bp:") {
+		if e, ok := r.blocks[k[3:]]; ok {
+			return k[:3] + e
+		}
+	}
+	return k
+}
+
+// load the image through the real reader and the real chronicler; then append the probe record
+// through the real chronicler (Write + Sync + Close) and load again
+func (r *c02Replay) evalImage(d c02Files) string {
+	if err := c02Materialise(d, r.dir); err != nil {
+		return "machinery " + err.Error()
+	}
+	l := c02LoadIndex(r.dir)
+	live := 0
+	spec := r.spec
+	spec.live = &live
+	ch, c := c02ChronLoad(spec, r.dir)
+	out := "L:" + l + " C:" + c
+	if r.probe {
+		tr, _ := c02MakeTreasure(c02ProbeItem())
+		ch.Write([]treasure.Treasure{tr})
+		_ = ch.Sync()
+		_ = ch.Close()
+		_, a := c02ChronLoad(spec, r.dir)
+		out += " A:" + a
+	}
+	return out
+}
+
+// c02RunOps answers an ops file from the implementation side.
+func c02TmpRoot() string {
+	if st, err := os.Stat("/dev/shm"); err == nil && st.IsDir() {
+		return "/dev/shm"
+	}
+	return ""
+}
+
+func c02Quiet() { slog.SetDefault(slog.New(slog.NewTextHandler(io.Discard, nil))) }
+
+func c02RunOps(in *bufio.Scanner, w *bufio.Writer, probe bool) {
+	c02Quiet()
+	tmp, _ := os.MkdirTemp(c02TmpRoot(), "hximg-")
+	defer os.RemoveAll(tmp)
+	r := &c02Replay{dir: filepath.Join(tmp, "img"), probe: probe}
+	for in.Scan() {
+		line := in.Text()
+		f := strings.Fields(line)
+		if len(f) == 0 {
+			fmt.Fprintln(w, "bad-op")
+			continue
+		}
+		switch f[0] {
+		case "case":
+			r.ops = nil
+			r.blocks = map[string]string{}
+			fmt.Fprintln(w, line)
+		case "cfg":
+			kv := map[string]string{}
+			for _, x := range f[1:] {
+				p := strings.SplitN(x, "=", 2)
+				if len(p) == 2 {
+					kv[p[0]] = p[1]
+				}
+			}
+			r.spec = c02Chron{kind: kv["kind"]}
+			r.spec.bs, _ = strconv.Atoi(kv["bs"])
+			r.spec.thr, _ = strconv.ParseFloat(kv["thr"], 64)
+			if kv["name"] != "-" {
+				r.spec.name = kv["name"]
+			}
+			fmt.Fprintln(w, "ok")
+		case "blk":
+			r.blocks[f[1]] = f[4]
+			fmt.Fprintln(w, "ok")
+		case "act":
+			switch f[1] {
+			case "load":
+				fmt.Fprintln(w, "ok "+f[len(f)-1])
+			case "sync", "close":
+				fmt.Fprintln(w, "ok "+f[len(f)-1])
+			default:
+				fmt.Fprintln(w, "ok")
+			}
+		case "plant":
+			s := c02ParseLogLine(f)
+			r.ops = append(r.ops, s)
+			fmt.Fprintln(w, "ok")
+		case "log":
+			s := c02ParseLogLine(f)
+			r.ops = append(r.ops, s)
+			to := f[4]
+			fmt.Fprintf(w, "%s %s %s %s %s %s %s\n", s.Op, s.Path, to, f[5], f[6], r.kindText(s.Kind), s.Res)
+		case "img":
+			i, _ := strconv.Atoi(f[1])
+			j, _ := strconv.Atoi(f[2])
+			k, _ := strconv.Atoi(f[3])
+			fmt.Fprintln(w, r.evalImage(c02Image(r.ops, i, j, k)))
+		case "end":
+			fmt.Fprintln(w, "end")
+		default:
+			fmt.Fprintln(w, "bad-op")
+		}
+	}
 }
